@@ -14,7 +14,7 @@ RULE = {
     "non-trivial = formatter inputs outside [0, 2^n) or with the sign bit set; table checks with >=2 rows and >=1 unaligned or sub-word write; distinct by (value, width) / case hash."
 }
 ASSUMPTIONS = {"C17": ["R8 parses the strings back (no formatting code shared)", "the shadow of written addresses is maintained from the backing Memory's public write_*/reset calls; bytes of a faulting straddling write are treated as 'either'"]}
-REQUIRED = {"C17": ["formatter_exhaustive_12", "formatter_exhaustive_16", "formatter_32", "wrapped_formatter_calls", "register_tables_checked", "memory_tables_checked", "memory_rows_checked", "toy_tables_checked", "toy_register_reprs_checked", "subword_rows", "cached_table_checks", "tables_after_reload_checked", "custom_register_file_cases", "toy_ir_vs_fetched_word"]}
+REQUIRED = {"C17": ["returned_tables_scribbled", "formatter_exhaustive_12", "formatter_exhaustive_16", "formatter_32", "wrapped_formatter_calls", "register_tables_checked", "memory_tables_checked", "memory_rows_checked", "toy_tables_checked", "toy_register_reprs_checked", "subword_rows", "cached_table_checks", "tables_after_reload_checked", "custom_register_file_cases", "toy_ir_vs_fetched_word"]}
 
 
 def plan(prop, tier, seed):
